@@ -27,6 +27,17 @@ CLAIMED = {
         "note": _NOTE,
         "technique": "CrossHair symbolic execution + z3 (bounded model checking of the real functions against Python's own sequence semantics)",
     },
+    "C18": {
+        "design_ref": "DESIGN.md section 5 C18",
+        "text": ("Bounded symbolic execution of the real config parser (_parse_config_section via parse_config_file with an "
+                 "in-memory file system), instance ordering and lookup: for every enumerated stack of <= 2 (quick) / <= 3 "
+                 "(thorough) chained files with top-level settings, module overrides and disable_all, the solver shows for "
+                 "all option values (unbounded ints / bools), command-line presence and 7 queried module paths that the "
+                 "effective value equals the documented precedence; 19 kinds of malformed sections must raise for every "
+                 "offending value."),
+        "note": _NOTE + " File system and tomli.load are replaced by in-memory stubs; TOML syntax, argparse and path resolution are outside the claim.",
+        "technique": "CrossHair symbolic execution + z3 against a 25-line precedence oracle written from the documentation",
+    },
 }
 
 _PENDING = "harness not landed yet in this commit (build in progress; see DESIGN.md section 9)"
